@@ -405,7 +405,7 @@ func init() {
 	register(ruleBCE, ruleUnmarshalErr, rulePanicUnmarshal)
 	addProp(&PropSpec{
 		ID:    "C18",
-		Rules: []string{"R-BCE", "R-PANIC-UNMARSHAL", "R-UNMARSHAL-ERR", "R-LAYOUT", "R-CTXZONE", "R-GLOBALS", "R-WALLCLOCK", "R-OKFLAG", "R-VALUETYPES"},
+		Rules: []string{"R-BCE", "R-PANIC-UNMARSHAL", "R-UNMARSHAL-ERR", "R-LAYOUT", "R-CTXZONE", "R-GLOBALS", "R-WALLCLOCK", "R-OKFLAG", "R-VALUETYPES", "R-TIMEPIN"},
 		Explanation: "Totality of UnmarshalJSON on hostile input, decided with the Go compiler's own prove pass as the decision procedure for index safety: " +
 			"every bounds check the compiler cannot discharge in a function reachable from the five UnmarshalJSON methods is a violation; explicit panics are enumerated over the call graph; returned errors wrap ErrSQLType. " +
 			"Only the 'hostile input returns an error instead of panicking' clause of C18 is decided.",
@@ -568,21 +568,69 @@ var ruleLayout = &Rule{
 				}
 			}
 			sortFuncs(scan)
+			// a helper of the package that tries layouts it is handed
+			// (`parseFirst(src, layouts...) (time.Time, bool)`): its
+			// time.Parse takes the layout from a parameter
+			triesLayouts := func(h *ssa.Function) bool {
+				if h == nil || h.Blocks == nil || fnPkgPath(h) != pkgTypes || h.Object() == nil || h.Object().Exported() {
+					return false
+				}
+				for _, hc := range p.allCalls(h) {
+					if calleeQualified(&hc.Call) != "time.Parse" {
+						continue
+					}
+					own := map[string]bool{}
+					stringConstsReaching(hc.Call.Args[0], map[ssa.Value]bool{}, own)
+					if len(own) == 0 {
+						return true
+					}
+				}
+				return false
+			}
 			for _, pt := range scan {
 				for _, b := range pt.Blocks {
 					for _, ins := range b.Instrs {
 						c, ok := ins.(*ssa.Call)
-						if !ok || calleeQualified(&c.Call) != "time.Parse" {
+						if !ok {
 							continue
 						}
 						ls := map[string]bool{}
-						stringConstsReaching(c.Call.Args[0], map[ssa.Value]bool{}, ls)
-						errV := extractOf(c, 1)
-						if errV == nil {
+						var errV, okV ssa.Value
+						switch {
+						case calleeQualified(&c.Call) == "time.Parse":
+							stringConstsReaching(c.Call.Args[0], map[ssa.Value]bool{}, ls)
+							errV = extractOf(c, 1)
+						case !c.Call.IsInvoke() && triesLayouts(c.Call.StaticCallee()):
+							for _, a := range c.Call.Args {
+								stringConstsReaching(a, map[ssa.Value]bool{}, ls)
+							}
+							rs := c.Call.StaticCallee().Signature.Results()
+							for ri := 0; ri < rs.Len(); ri++ {
+								if isErrorType(rs.At(ri).Type()) {
+									errV = extractOf(c, ri)
+								} else if bt, isB := rs.At(ri).Type().Underlying().(*types.Basic); isB && bt.Kind() == types.Bool {
+									okV = extractOf(c, ri)
+								}
+							}
+						default:
+							continue
+						}
+						if errV == nil && okV == nil {
 							continue
 						}
 						for _, b2 := range pt.Blocks {
-							if isNil, _ := nilFact(factsAt(b2), errV); !isNil {
+							success := false
+							if errV != nil {
+								success, _ = nilFact(factsAt(b2), errV)
+							}
+							if okV != nil {
+								for _, f := range factsAt(b2) {
+									if sameValue(f.Cond, okV) && f.Truth {
+										success = true
+									}
+								}
+							}
+							if !success {
 								continue
 							}
 							for _, i2 := range b2.Instrs {
